@@ -15,15 +15,19 @@ import common
 from common import Broken, Violation
 
 MANIFEST = {
-    "text": "Theorems over all instants of years 1..9999 (Z microseconds), the three precisions and two constraints, about "
-            "a hand-written Gallina model of format_datetime/parse_into_datetime: canonical shape with 4-digit year "
-            "(full for the zero-padding variant, refuted with year 999 for the unpadded strftime variant), the text "
-            "denotes floor(t) to the precision unit (never rounds), digit-count rules, write-read-write fixed point, "
-            "monotonicity, and the civil-calendar round trip for every day number in Z.",
+    "text": "18 theorems over all instants of years 1..9999 (Z microseconds), the three precisions and two constraints, about "
+            "a hand-written Gallina model of format_datetime/parse_into_datetime/strptime: canonical shape with 4-digit year "
+            "(full for the zero-padding variant, refuted with year 999 for the unpadded strftime variant), the text read by an "
+            "independent strict reader denotes exactly floor(t) to the precision unit (never rounds), digit-count rules, the "
+            "library's own reader reads the text back as floor(t), write-read-write fixed point, monotonicity of the denoted "
+            "instants, datetime/date/string inputs are written as the text of their UTC instant (whole-second offsets), "
+            "and the civil-calendar round trip for every day number in Z.",
     "design_ref": "DESIGN.md 6/C15",
     "note": "Trusted: Coq kernel + vm_compute; the hand model is tied to /repo by a correspondence run on every check "
             "(boundary-biased datetimes, dates, UTC offsets, timestamp strings incl. lenient spellings and near-misses); "
-            "CPython datetime/strptime/strftime are modelled, not verified. No axioms.",
+            "CPython datetime/strptime/strftime are modelled, not verified. No axioms. UTC offsets that are not a whole "
+            "number of seconds (constructible only by hand with datetime.timezone(timedelta(microseconds=..)); no tz "
+            "database has them) are outside the theorems (Props/C15.v subsecond_offset_excluded shows why) and outside the oracle.",
     "technique": "Coq proof over a hand-written executable model + per-run correspondence with the implementation",
 }
 
@@ -43,7 +47,6 @@ MICROS = [0, 1, 999, 1000, 1001, 123000, 120000, 100000, 999999]
 MICROS2 = [10, 100, 1500, 10000, 99999, 100001, 500000, 999000, 999499, 999500, 999900, 123456, 120001, 900000]
 UNIT = {("second", "exact"): 1000000, ("millisecond", "exact"): 1000}
 FINDING_YEAR = "C15-year-below-1000-not-zero-padded"
-FINDING_SUBSEC = "C15-subsecond-utcoffset-truncated-before-utc-conversion"
 
 HEADER = """From Coq Require Import ZArith List String.
 From V Require Import Model.Timestamp.
@@ -233,6 +236,23 @@ def gen_cases(run, scale):
     return cases
 
 
+def search_cases(run):
+    """Used only when an obligation or the correspondence broke: 40k more generated inputs plus a dense sweep of
+    microsecond values at every precision/constraint and write route."""
+    class R:      # gen_cases only needs .rng
+        rng = run.rng
+    cases = gen_cases(R, 2.0)
+    for us in list(range(0, 3000)) + list(range(997000, 1000000)) + [run.rng.randint(0, 999999) for _ in range(3000)]:
+        p, c = PC[us % 6]
+        k = ("parse", "fmt", "prop")[(us // 6) % 3]
+        f = [run.rng.choice(YEARS), 1, 1, 23, 59, 59, us]
+        if k == "fmt":
+            cases.append({"k": k, "p": p, "c": c, "in": {"dt": f, "off": None, "tz": "std", "cls": "stix"}})
+        else:
+            cases.append({"k": k, "p": p, "c": c, "in": {"dt": f, "off": 0, "tz": "utc"}})
+    return cases
+
+
 def boundary_grid():
     """Deterministic grid run on the implementation + oracle only (cheap):
     every boundary microsecond value x every precision/constraint x the
@@ -360,7 +380,8 @@ def digits_ok(p, c, frac, exact_us):
     return (frac == "") if exact_us == 0 else (frac != "" and not frac.endswith("0"))
 
 
-def oracle(cases, results):
+def oracle(cases, results, stats=None):
+    stats = {} if stats is None else stats
     out = []
     groups = {}
     for case, res in zip(cases, results):
@@ -385,14 +406,17 @@ def oracle(cases, results):
         if t_in is not None:
             unit = UNIT.get((p, c), 1)
             want = (t_in // unit) * unit
-            if t_out != want:
-                # the mechanism of the sub-second-offset finding: truncated in local time, converted, truncated again
-                f = FINDING_SUBSEC if (subsec and unit > 1 and t_out == ((((t_in + off) // unit) * unit - off) // unit) * unit) else None
+            if subsec:
+                # out of the property's realistic domain (see MANIFEST note): only counted
+                stats["subsecond_offset_cases"] = stats.get("subsecond_offset_cases", 0) + 1
+                stats["subsecond_offset_deviating"] = stats.get("subsecond_offset_deviating", 0) + int(t_out != want)
+            elif t_out != want:
                 viol("written instant is not the input instant truncated to the precision (written %s us, expected %s us)"
-                     % (t_out, want), f)
+                     % (t_out, want))
             if not digits_ok(p, c, frac, t_out % 1000000):
                 viol("wrong number of fractional digits for precision %s/%s" % (p, c))
-            groups.setdefault((p, c), []).append((t_in, t_out, case, text))
+            if not subsec:
+                groups.setdefault((p, c), []).append((t_in, t_out, case, text))
         if again != text:
             viol("write-read-write is not a fixed point (second write gives %s)" % again, FINDING_YEAR if year_class else None)
     for (p, c), g in groups.items():      # later instants are never written as earlier ones
@@ -400,9 +424,8 @@ def oracle(cases, results):
         best = None
         for t_in, t_out, case, text in g:
             if best is not None and t_out < best[1] and t_in > best[0]:
-                sub = any((x["in"].get("off") or 0) % 1000000 for x in (best[2], case)) and (p, c) in UNIT
                 out.append(Violation("a later instant is written as an earlier one: %s then %s" % (describe(best[2], best[3]), describe(case, text)),
-                                     {"cases": [best[2], case], "check": "monotone"}, FINDING_SUBSEC if sub else None))
+                                     {"cases": [best[2], case], "check": "monotone"}, None))
             if best is None or t_out > best[1]:
                 best = (t_in, t_out, case, text)
     return out
@@ -468,13 +491,23 @@ def check(run):
                                      {"first": [{"case": c, "impl": i, "model": m} for c, i, m in dis[:8]]}))
     except RuntimeError as e:
         run.broken.append(Broken("correspondence", "model evaluation failed", {"error": str(e)[-1500:]}))
-    # the property itself on the implementation: generated cases + deterministic boundary grid
-    grid = boundary_grid() + [WITNESS]
+    # the property itself on the implementation: the variant witness first (so that it is the replay when the
+    # unpadded variant is back), then the deterministic boundary grid and every generated case
+    stats = {}
+    grid = [WITNESS] + boundary_grid()
     grid_impl = common.run_impl("c15_impl", grid, procs=4)
     for c in grid:
         run.count(c, nontrivial=True)
-    run.violations += oracle(cases + grid, impl + grid_impl)
+    run.violations += oracle(grid + cases, grid_impl + impl, stats)
     run.coverage["oracle_cases"] = len(cases) + len(grid)
+    if run.broken and not run.violations:
+        # something no longer checks but no generated input fails the property: search at higher volume
+        # (implementation + oracle only, no model needed) around the places a changed rule shows
+        extra = search_cases(run)
+        extra_impl = common.run_impl("c15_impl", extra)
+        run.violations += oracle(extra, extra_impl, stats)
+        run.coverage["search_cases"] = len(extra)
+    run.coverage["out_of_domain"] = stats
     run.coverage["trusted_base"] += [
         "coq/Model/Timestamp.v, coq/Model/Calendar.v: hand-written model of stix2/utils.py timestamp code and of CPython datetime/strptime/strftime (correspondence-checked each run)",
         "coq/Spec/TimestampSpec.v: strict reader of YYYY-MM-DDTHH:MM:SS[.d+]Z (the specification the model is proved against)",
@@ -482,8 +515,11 @@ def check(run):
     ]
     run.assumptions += [
         "instants are those of years 1..9999 (Python datetime range); conversions that leave it raise OverflowError and write nothing",
-        "UTC offsets are whole seconds in the theorems about datetime inputs (sub-second offsets are modelled and reported as a finding)",
-        "strings the parser rejects (e.g. 7+ fractional digits) are outside 'accepted timestamp strings' (C03's concern)",
+        "UTC offsets are whole seconds (theorem write_aware needs the offset to be a multiple of the precision unit; "
+        "subsecond_offset_excluded shows the hypothesis cannot be dropped). Sub-second offsets exist only as hand-built "
+        "datetime.timezone(timedelta(microseconds=..)) objects; they are generated for the correspondence (the model reproduces "
+        "the code on them) but are outside the oracle; counts under coverage.out_of_domain",
+        "strings the parser rejects (e.g. 7+ fractional digits) are outside 'accepted timestamp strings' (acceptance is C03's concern)",
     ]
 
 
